@@ -64,6 +64,7 @@ func c19Opts(engine string, i int, r *gen.R) (gen.DiagramOpts, string) {
 
 func genC19(seed int64, tier string, emit func(run.Case)) {
 	layGenCases(seed, tier, 19, 300, 60, 40, c19Opts, emit)
+	layNearOnlyCases(seed, tier, 3, emit)
 }
 
 func c19LabelClass(o *d2graph.Object) string {
